@@ -138,6 +138,16 @@ int read_uf2(const char *filename, Memory *memory)
       //printf("extension tags present\n");
     }
 
+    if (uf2_block.byte_count > sizeof(uf2_block.data))
+    {
+      printf("Error: UF2 block holds more than %d bytes\n",
+        (int)sizeof(uf2_block.data));
+      print_block(uf2_block, file.tell());
+
+      file.close_file();
+      return -1;
+    }
+
     for (uint32_t n = 0; n < uf2_block.byte_count; n++)
     {
       memory->write8(address++, uf2_block.data[n]);
